@@ -588,7 +588,34 @@ func roleTable(r *engine.Report, p *engine.Program, V *ssa.Function) {
 }
 
 // serverInstallRule: a server profile whose ClientAuth is not NoClientCert always installs the verifier.
+// clientAuthSetRule: the ClientAuth modes a server profile can get are exactly NoClientCert,
+// VerifyClientCertIfGiven and RequireAndVerifyClientCert — the last being the constant by which
+// listen() recognises a mutually authenticated listener and installs the node binding.
+func clientAuthSetRule(r *engine.Report, p *engine.Program, fn *ssa.Function) {
+	got := map[int64]bool{}
+	for _, b := range fn.Blocks {
+		for _, in := range b.Instrs {
+			st, ok := in.(*ssa.Store)
+			if !ok {
+				continue
+			}
+			if fa, ok := st.Addr.(*ssa.FieldAddr); ok && isTLSConfigField(engine.FieldAddrVar(fa), "ClientAuth") {
+				if k, isC := engine.ConstInt(st.Val); isC {
+					got[k] = true
+				} else {
+					got[-1] = true
+				}
+			}
+		}
+	}
+	ok := len(got) == 3 && got[0] && got[3] && got[4]
+	r.Check("R5-listener-binding", "PrepareTLSServerConfig: ClientAuth is one of NoClientCert, VerifyClientCertIfGiven, RequireAndVerifyClientCert", fn.Pos(), ok,
+		"the three modes stored are 0, 3 and 4; 'requireclientcert' yields RequireAndVerifyClientCert, the value listen() tests before installing the node-binding verifier",
+		fmt.Sprintf("ClientAuth modes stored: %v — with a mode such as RequireAnyClientCert the stream listener no longer recognises the profile as mutually authenticated and never binds the client certificate to the packet source node", got))
+}
+
 func serverInstallRule(r *engine.Report, p *engine.Program, fn *ssa.Function) {
+	clientAuthSetRule(r, p, fn)
 	var vpc []ssa.Instruction
 	var caStores []*ssa.Store
 	for _, b := range fn.Blocks {
